@@ -148,6 +148,12 @@ func (f *FixedUintField) GenReadFrom() (string, error) {
 		}
 	}
 
+	// The value has a fixed width: any other declared length is malformed
+	// (and must not be ignored, the bytes would be taken for the next TLV).
+	g.printlnf("if l != %d {", f.l)
+	g.printlnf("err = enc.ErrFormat{Msg: \"fixed-width integer field %s has a wrong length\"}", f.name)
+	g.printlnf("} else {")
+
 	if f.opt {
 		g.printlnf("{")
 
@@ -169,6 +175,7 @@ func (f *FixedUintField) GenReadFrom() (string, error) {
 	} else {
 		gen("value." + f.name)
 	}
+	g.printlnf("}")
 	return g.output()
 }
 
